@@ -16,7 +16,6 @@ use metrique_writer_core::{
 use serde_json::Value as J;
 use std::borrow::Cow;
 use std::collections::BTreeMap;
-use std::sync::atomic::{AtomicBool, Ordering};
 use std::sync::{Arc, Mutex};
 use std::time::SystemTime;
 
@@ -358,7 +357,7 @@ pub fn c13(cfg: &J) {
     if a.fields.get("a") != Some(&7) {
         mc::violation("rest-of-entry-affected", format!("the parent's own field is wrong: {:?}", a.fields));
     }
-    let mut check = |slot: &str, field: &str, last: u64| {
+    let check = |slot: &str, field: &str, last: u64| {
         let present = a.fields.get(field).copied();
         if let Some(v) = present {
             if v != last {
